@@ -11,7 +11,35 @@ def gen_C01(rng, tier):
     n = 2500 if tier == 'quick' else 30000
     return G.histories(rng, n, ['D'], kinds, maxops=30 if tier == 'quick' else 40, reject_p=0.0)
 
+def gen_C02(rng, tier):
+    kinds = G.LABEL_KINDS_QUICK if tier == 'quick' else G.LABEL_KINDS_ALL
+    n = 2500 if tier == 'quick' else 30000
+    return G.histories(rng, n, ['U'], kinds, maxops=30 if tier == 'quick' else 40, reject_p=0.0)
+
+def gen_C04(rng, tier):
+    n = 2500 if tier == 'quick' else 30000
+    return [G.multi_history(rng, rng.choice(['DM', 'UM']), maxops=30 if tier == 'quick' else 45) for _ in range(n)]
+def gen_C05(rng, tier):
+    n = 2500 if tier == 'quick' else 30000
+    return [G.weighted_history(rng, rng.choice(['DW', 'UW']), maxops=30 if tier == 'quick' else 45) for _ in range(n)]
+MW_IMPORTS = 'Base DirectedModel DirectedSpec UndirectedModel UndirectedSpec MultiModel WeightedModel MultiSpec Instances'
+
 PROPS = {
+ 'C04': dict(harness='multi', gen=gen_C04, coq_term=G.coq_term_mw, histogram=G.op_histogram, coq_imports=MW_IMPORTS,
+             nontrivial=_steps_with_edges, model_name='MultiModel.dm_step/um_step',
+             rule='seeded random histories on DirectedMultigraph / UndirectedMultigraph (force off): addEdge, addMultiedge, reciprocal variants, removeEdge, removeMultiedge, '
+                  'setEdgeMultiplicity, bulk removals, resize; multiplicity arguments drawn around the current value (0, 1, cur-1, cur, cur+1); both orientations; '
+                  'all observers compared after every call with the Coq model and the multiplicity-function spec; non-trivial = reaches a state with >=1 edge'),
+ 'C05': dict(harness='multi', gen=gen_C05, coq_term=G.coq_term_mw, histogram=G.op_histogram, coq_imports=MW_IMPORTS,
+             nontrivial=_steps_with_edges, model_name='WeightedModel.dw_step/uw_step',
+             rule='seeded random histories on DirectedWeightedGraph / UndirectedWeightedGraph (force off) with exactly representable weights k/4 (negative, zero, positive); '
+                  'addEdge, setEdgeWeight on present and absent edges in both orientations, every removal, resize; all observers incl. getTotalWeight and getWeightMatrix '
+                  'compared after every call with the Coq model and the weight-function spec; non-trivial = reaches a state with >=1 edge'),
+ 'C02': dict(harness='classes', gen=gen_C02, coq_term=G.coq_term_history, histogram=G.op_histogram, coq_imports='Base DirectedModel DirectedSpec UndirectedModel UndirectedSpec Instances',
+             segments=[0, 1, 2, 3, 6, 7, 8], nontrivial=_steps_with_edges, model_name='UndirectedModel.ustep/u_observe',
+             rule='seeded random histories of LabeledUndirectedGraph<L> mutators (force off), each call naming its pair in a random orientation; sizes 0-5(+resize); '
+                  'after every call ALL observers (hasEdge both orientations, neighbour lists, degrees in both conventions, both matrices, edges()) are compared with the Coq model '
+                  'and the unordered-pair spec; non-trivial = distinct history that reaches a state with >=1 edge'),
  'C01': dict(harness='classes', gen=gen_C01, coq_term=G.coq_term_history, histogram=G.op_histogram,
              segments=[0, 1, 2, 3, 6, 7, 8], nontrivial=_steps_with_edges, model_name='DirectedModel.step/observe',
              rule='seeded random histories of LabeledDirectedGraph<L> mutators (force off) incl. rejected calls; sizes 0-5(+resize); '
